@@ -546,7 +546,7 @@ func runC07(c *Ctx) {
 
 func init() {
 	Register(&Monitor{ID: "C07", Run: func(c *Ctx) {
-		c.Rule = "valid documents from the reference producers made invalid by a catalogued edit: truncation at every interior byte offset, an over-long length, an invalid atom (illegal tag/length pair, negative zero, bad wrapper, impossible calendar field, non-UTF-8, undefined symbol id, bad digits/escapes/commas/annotations/field names, bad base64, ...) substituted for a value node with all enclosing lengths consistent; an edit counts only if the independent reference decoder also rejects the result. Oracle: after a full traversal Err() != nil, then three further Next() are false and Err() keeps the same type and message. Non-trivial: the edit is strictly inside the document; distinct by edited bytes."
+		c.Rule = "valid documents from the reference producers made invalid by a catalogued edit: truncation at every interior byte offset, an over-long length, an invalid atom (illegal tag/length pair, negative zero, bad wrapper, impossible calendar field, non-UTF-8, undefined symbol id, bad digits/escapes/commas/annotations/field names, bad base64, ...) substituted for a value node with all enclosing lengths consistent; an edit counts only if the independent reference decoder also rejects the result. Every edited document (up to 4000 bytes) is read three ways: from memory, one byte per read, and in pieces of 3, 0 and 5 bytes with the end arriving together with io.EOF. Oracle: after a full traversal Err() != nil, then three further Next() are false and Err() keeps the same type and message. Non-trivial: the edit is strictly inside the document; distinct by edited bytes."
 		c.Assume("an edit the reference decoder accepts is dropped (counted), never reported")
 		runC07(c)
 	}, Replay: func(c *Ctx, v *Violation) string {
